@@ -100,6 +100,9 @@ def relabel(rng, G, kind):
         m = {u: p[i] for i, u in enumerate(nodes)}
     elif kind == "offset":
         m = {u: 100 + 3 * i for i, u in enumerate(nodes)}
+    elif kind == "negint":
+        # negative integers, among them -1 and 0 — values a library is tempted to use as sentinels
+        m = {u: -i for i, u in enumerate(nodes)} if rng.random() < 0.5 else {u: -1 - i for i, u in enumerate(nodes)}
     elif kind == "fresh-tuple":
         m = {u: (i, "y") for i, u in enumerate(nodes)}
     elif kind == "fresh-int":
